@@ -80,3 +80,44 @@ reg("C11", "model_checking", "E2",
     "executions, outputs, read-only cache bytes and the resulting cache state are compared with a dictionary model. Quick: "
     "3 cache lists, fixed point reached (31-57 states each); thorough: 5 lists, all identities plantable, depth cap 12.",
     "Async path uses the default FIFO schedule of the virtual worker; canonical state = identity -> {incomplete, errored, complete} + leftover files.")
+
+reg("C07", "exploration", "E1+E6",
+    "bounded exhaustive enumeration of equal-content value variants (all insertion / set-iteration orders) + fresh-interpreter replays",
+    "Identity = _checksum of a task holding the value. For a value grammar batch (6.4k quick / 46k thorough values) the checksum "
+    "must be a single value over every dict insertion order and every set/frozenset iteration order (ordered-set seam, also for a "
+    "task class's xor groups), after cloudpickle round trips of Task and Job, for debug and cf workers on two cache roots; fresh "
+    "interpreters under PYTHONHASHSEED 0-3 (0-5) evaluate the whole batch and must agree with each other and with the seam; a "
+    "result written by one session must be found by the others.",
+    "Hash seeds sample the interpreter dimension; the iteration-order enumeration through the seam decides, and the seam is validated against the real interpreters.")
+reg("C08", "exploration", "E1",
+    "bounded exhaustive enumeration of a value grammar: collision buckets, all container orders, pairwise context-freeness",
+    "Every grammar value (28k quick / 160k thorough: scalars, containers, attrs/plain/slots objects, classes, functions, lambdas, "
+    "numpy) is built twice and hashed with the real hash_function; hashes are bucketed and a bucket holding two different "
+    "type-tagged canonical keys is a collision; every dict insertion order and set iteration order must give one hash; for every "
+    "ordered pair of a 65-value core the hash alone must equal the hash after hashing the other value with a shared Cache.",
+    "User class/function names, OrderedDict order, -0.0 are outside the alphabet; unorderable mixed sets raising TypeError count as rejected.")
+reg("C20", "exploration", "E1",
+    "bounded exhaustive enumeration of type terms x values against an independent conforms() reference",
+    "2384 type terms (depth <=3 over scalars, Path/File, Optional/Union, list/tuple/dict/set, MultiInputObj) x 58 (183) values through "
+    "TypeParser(T)(v), and 176 depth-<=2 types through real task-field assignment and a debug-worker run: an accepted value must "
+    "conform (element types included), show no str<->collection conversion, re-coerce to an equal value, and not be rejected later by the run.",
+    "conforms() is an isinstance recursion written from the typing semantics (bool is int, int accepted for float, MultiInputObj[T] = list of T).")
+reg("C21", "exploration", "E1",
+    "bounded exhaustive enumeration of (source type, target type) pairs x conforming values",
+    "All 176x176 ordered pairs of depth-<=2 type terms (thorough adds depth-3 partners) for which the real check_type(S) passes with "
+    "superclass_auto_cast=False; every grammar value conforming to S must then be accepted by TypeParser(T)(v) (fixed-length tuple "
+    "arity aside); a case is reported only if the permissive field converter rejects it as well.",
+    "Pairs with S == Any are not judged; signatures decided by counterfactual substitutions.")
+reg("C22", "exploration", "E1",
+    "bounded exhaustive enumeration of shell task definitions x value assignments against a reference argv builder",
+    "Every single-field definition (7 kinds x optional x 5 argstr x 2 sep x 3 positions x all values), every position vector over "
+    "{None,1,2,3,-1,-2} for <=3 (4) fields with every set/unset mask and append_args, and pairs of fields; each case is a real "
+    "Task(...)(cache_root=fresh) run with environments.base.execute replaced by a recorder; the recorded argv must equal the "
+    "reference argv and task._command_args().",
+    "Reference vt/ref/argv.py written from the statement and the shell.arg documentation; float rendering and two documented list readings are don't-care.")
+reg("C24", "exploration", "E1",
+    "bounded exhaustive enumeration of definition/value pairs incl. hostile strings; shlex round trip of cmdline vs recorded argv",
+    "All C22 single-field and ordering cases plus every string of length <=2 (3) over {a,space,tab,',\",\\,$,*,;,e-acute,newline} in six "
+    "placements (positional, templated, list elements, file name, append_args): shlex.split(task.cmdline) must equal the argv "
+    "recorded at the execute seam of the real run.",
+    "POSIX splitting = shlex.split (no expansion).")
